@@ -2,9 +2,11 @@
    Only theorem statements; proofs are in Proofs/WalkFacts.v, WalkFacts2.v.  Output paths of the
    model are component lists relative to the output directory; partial: the real file system is
    exercised by the harness (snapshots), not modelled. *)
-From Coq Require Import String List Permutation Sorted.
+From Coq Require Import String List Permutation Sorted NArith.
 From CMinx Require Import Base.Str Model.Path Model.Naming Model.Pipeline Model.Walk
-     Spec.FsSpec Proofs.WalkFacts Proofs.WalkFacts2 Proofs.FsFacts.
+     Spec.FsSpec Proofs.WalkFacts Proofs.WalkFacts2 Proofs.FsFacts
+     Base.PyWalkSem Proofs.WalkSourceMatch.
+From CMinx Require Gen.PyWalkSource.
 Import ListNotations.
 
 (* every component of every written / created path comes from the tree: a directory name, a
@@ -108,3 +110,24 @@ Theorem C18_no_output_dir_fs_unchanged :
     apply_run fs0 (document st hdrs docfn excl base kind) p = fs0 p.
 Proof. exact no_output_dir_fs_unchanged. Qed.
 Print Assumptions C18_no_output_dir_fs_unchanged.
+
+(* pywalk2coq: document() as regenerated from src/cminx/__init__.py on every run (os.walk loop with
+   in-place pruning, for/else, break/continue, rebinding by sorted, index construction, per-file
+   loop), run on an abstract world, produces exactly the action list of the model.  names_distinct
+   (no two sibling directories / files with one name) holds of every real directory. *)
+Theorem C18_document_matches_source :
+  forall st hdrs docfn excl follow base kind input_file,
+    kind_distinct kind = true ->
+    PyWalkSource.document (PyWorld base kind) docfn [] input_file (py_settings_of st hdrs excl follow)
+    = Walk.document st hdrs docfn excl base kind.
+Proof. exact document_matches_source. Qed.
+Print Assumptions C18_document_matches_source.
+
+Theorem C18_document_single_file_matches_source :
+  forall st hdrs docfn excl follow base top log rel ch name content sl,
+    dir_at top rel = Some ch -> find_file name ch = Some content ->
+    PyWalkSource.document_single_file (PyWorld base (KDir top)) docfn log
+      (APath AInput (rel ++ [name]) false) (APath AInput [] sl) (py_settings_of st hdrs excl follow)
+    = emits log (doc_actions st docfn (ws_prefix st) (rel_string (rel ++ [name])) rel name content).
+Proof. exact document_single_file_matches_source. Qed.
+Print Assumptions C18_document_single_file_matches_source.
